@@ -35,7 +35,7 @@ func verifC04Resp(ttl uint32, rcode int) (req, resp *dns.Msg) {
 // TTL minus the age (rounded), for every age below expiry.
 //
 //verif:harness name=H04a-simple-ttl tier=quick,thorough bounds="one cached answer record, TTL full 32-bit, age any value in [0, TTL) nanosecond-exact; float64 arithmetic encoded in the FloatingPoint theory" reach=served prefer=cvc5
-//verif:assume an entry older than its lowest TTL is not returned by the underlying LRU (SetWithExpire contract; checked with the real gcache in H04d-simple-store)
+//verif:assume an entry older than its lowest TTL is not returned by the underlying LRU (SetWithExpire contract; the expiry handed to it is checked in H04f-simple-store)
 func VerifC04SimpleTTL() {
 	ttl := nondetU32()
 	verifAssume(ttl > 0)
